@@ -253,8 +253,16 @@ def registry_rule(prog, rep):
         rep.check(len(decos) == 2 and decos[0].startswith("q2_function") and decos[1] == "q2_typecheck", "REGISTRY", fi.short, "decorators", f"{decos}", f"decorators are {decos} (registry wrapper outermost, typecheck inside)", fi.loc())
     g = prog.func("q2_function.h.g")
     t = [norm(s) for s in g.node.body if not (isinstance(s, ast.Expr) and isinstance(s.value, ast.Constant))]
-    want = ["args = (datastore, namespace, *args)", "if TNamespace not in (sig.parameters[p].annotation for p in sig.parameters): args = (args[0], *args[2:])", "if Datastore not in (sig.parameters[p].annotation for p in sig.parameters): args = args[1:]", "return f(*args, **kwargs)"]
-    rep.check(t == want, "REGISTRY", g.short, "injection / stripping", "strip namespace (position 1) then datastore (position 0) when not annotated; forward the rest in order", f"the registry wrapper no longer forwards the arguments positionally as expected: {t}", g.loc())
+    import re as _re
+
+    okw = (
+        len(t) == 4
+        and t[0] == "args = (datastore, namespace, *args)"
+        and bool(_re.fullmatch(r"if TNamespace not in \(.*\.annotation for .* in sig\.parameters.*\): args = \(args\[0\], \*args\[2:\]\)", t[1]))
+        and bool(_re.fullmatch(r"if Datastore not in \(.*\.annotation for .* in sig\.parameters.*\): args = args\[1:\]", t[2]))
+        and t[3] == "return f(*args, **kwargs)"
+    )
+    rep.check(okw, "REGISTRY", g.short, "injection / stripping", "strip namespace (position 1) then datastore (position 0) when not annotated; forward the rest in order", f"the registry wrapper no longer forwards the arguments positionally as expected: {t}", g.loc())
     h = prog.func("q2_function.h")
     th = norm(h.node)
     ok = "fname = f.__name__" in th and "if fname[:3] == 'q2_': fname = fname[3:]" in th and "functions[fname] = g" in th
